@@ -10,9 +10,13 @@
      SetFitted b `self.is_fitted = b`
    Predicates see the object's current `fitted` flag and the abstract input record below
    (what is wrong with the arguments of the call; filled by the harness from the malformation it
-   injected).  Two trees are modelled: `Current` = the code as read in /repo (the refit guard
-   sits in BaseDiscretizer.fit, which every subclass calls LAST), `Repaired` = the same lists with
-   the guard evaluated first. *)
+   injected).  Two trees are modelled: `Current` = the code of /repo as it is now (after the
+   fix: commits a2fb996 guard first in every fit, ce46eee length test in the index assertion,
+   ff4805a str test before unique(y), cd23d68 Discretizer overlap assertion, 65b7c26
+   ContinuousDiscretizer._prepare_data, 2024976 its numeric assertion, 4b0ac8a raw columns
+   asserted before _cast_features);
+   `Before` = the lists as they were before those commits, kept for the historical refutation
+   records (the refit guard sat in BaseDiscretizer.fit, which every subclass calls LAST). *)
 From Coq Require Import List Bool Arith.
 Import ListNotations.
 
@@ -23,7 +27,7 @@ Inductive mal := MNone | MXNotFrame | MYNotSeries | MYNaN | MIndexMismatch | MMi
                | MNClasses | MYStr | MFeatureOverlap | MQuantStr | MOrdinalUnknown | MSortBy
                | MSecondFit.
 Inductive result := ROk | RAssert | ROther.
-Inductive tree := Current | Repaired.
+Inductive tree := Before | Current.
 
 Definition all_cls := [KDiscretizer; KQuantitative; KQualitative; KOrdinal; KCategorical;
                        KContinuous; KBinary; KContinuousCarver; KMulticlass].
@@ -154,6 +158,8 @@ Definition c_y_series (_ : bool) (i : input) := negb (y_checked i) || y_is_serie
 Definition c_y_nan (_ : bool) (i : input) := negb (y_checked i) || negb (y_has_nan i).
 Definition k_idx_len (_ : bool) (i : input) := negb (y_checked i) || index_same_len i.
 Definition c_idx (_ : bool) (i : input) := negb (y_checked i) || index_matches i.
+(* after ce46eee: `len(y.index) == len(X.index) and all(y.index == X.index)` *)
+Definition c_idx_len (_ : bool) (i : input) := negb (y_checked i) || index_same_len i.
 (* the same on (X_dev, y_dev) *)
 Definition c_xdev_frame (_ : bool) (i : input) := negb (dev_given i) || xdev_is_frame i.
 Definition k_cast_dev (f : bool) (i : input) := negb f || negb (dev_given i) || dev_columns_present i.
@@ -182,10 +188,11 @@ Definition c_ordinal_known (_ : bool) (i : input) := negb (ordinal_unknown_value
 Definition c_multiclass_inner_orders (f : bool) (i : input) := negb (f && has_ordinal i).
 
 (* one write per modelled assignment; the concrete state transformer is the parameter `w` *)
-Definition pd {S : Type} (cast : bool) : list (step S) :=
+(* ---- Before the fix commits ------------------------------------------------------------- *)
+Definition pd_before {S : Type} (cast : bool) : list (step S) :=
   [Check c_x_frame] ++ (if cast then [Crash k_cast] else []) ++
   [Check c_cols; Check c_y_series; Check c_y_nan; Crash k_idx_len; Check c_idx].
-Definition pd_dev {S : Type} (cast : bool) : list (step S) :=
+Definition pd_dev_before {S : Type} (cast : bool) : list (step S) :=
   [Check c_xdev_frame] ++ (if cast then [Crash k_cast_dev] else []) ++
   [Check c_dev_cols; Check c_ydev_series; Check c_ydev_nan; Check c_dev_idx].
 
@@ -194,54 +201,107 @@ Definition pd_dev {S : Type} (cast : bool) : list (step S) :=
    already required an order for every feature) *)
 Definition base_fit {S : Type} (w : S -> input -> S) : list (step S) := [Guard; Write w; SetFitted true].
 
-Definition fit_current {S : Type} (w : S -> input -> S) (c : cls) : list (step S) :=
+Definition fit_before {S : Type} (w : S -> input -> S) (c : cls) : list (step S) :=
   match c with
   | KDiscretizer =>
-      pd false ++ [Crash k_x_usable; Check c_ordinal_known; Write w; Check c_quant_numeric; Write w]
+      pd_before false ++ [Crash k_x_usable; Check c_ordinal_known; Write w; Check c_quant_numeric; Write w]
       ++ base_fit w
   | KQuantitative =>
-      pd false ++ [Crash k_x_usable; Check c_quant_numeric; Write w; Write w] ++ base_fit w
+      pd_before false ++ [Crash k_x_usable; Check c_quant_numeric; Write w; Write w] ++ base_fit w
   | KQualitative =>
-      pd false ++ [Crash k_x_usable; Write w; Check c_ordinal_known; Write w] ++ base_fit w
+      pd_before false ++ [Crash k_x_usable; Write w; Check c_ordinal_known; Write w] ++ base_fit w
   | KOrdinal =>
-      pd false ++ [Crash k_x_usable; Write w; Write w] ++ base_fit w
+      pd_before false ++ [Crash k_x_usable; Write w; Write w] ++ base_fit w
   | KCategorical =>
-      pd false ++ [Crash k_x_usable; Write w; Write w; Write w] ++ base_fit w
+      pd_before false ++ [Crash k_x_usable; Write w; Write w; Write w] ++ base_fit w
   | KContinuous =>
       [Crash k_x_frame; Crash k_cols; Crash c_quant_numeric; Write w] ++ base_fit w
   | KBinary =>
-      pd false ++ pd_dev false ++
+      pd_before false ++ pd_dev_before false ++
       [Check c_y_given; Check c_y_01; Check c_two_classes; Crash k_x_usable;
        Check c_ordinal_known; Check c_quant_numeric; Write w; Write w] ++ base_fit w
   | KContinuousCarver =>
-      pd false ++ pd_dev false ++
+      pd_before false ++ pd_dev_before false ++
       [Check c_y_given; Crash k_y_sortable; Check c_many_classes; Check c_y_no_str; Crash k_x_usable;
        Check c_ordinal_known; Check c_quant_numeric; Write w; Write w] ++ base_fit w
   | KMulticlass =>
-      pd true ++ pd_dev true ++
+      pd_before true ++ pd_dev_before true ++
       [Check c_y_given; Check c_many_classes; Crash k_x_usable; Check c_multiclass_inner_orders;
        Check c_ordinal_known; Check c_quant_numeric;
        Write w; SetFitted false; Write w] ++ base_fit w
   end.
 
-Definition fit_repaired {S : Type} (w : S -> input -> S) (c : cls) : list (step S) := Guard :: fit_current w c.
+Definition transform_before {S : Type} (c : cls) : list (step S) :=
+  pd_before (cls_eqb c KMulticlass) ++ [Crash k_x_usable; Crash c_quant_numeric; Check c_ordinal_known].
 
-(* BaseDiscretizer.transform (no subclass overrides it): private _prepare_data, quantitative
-   lookup (numpy comparison: no assertion on str cells), qualitative _check_new_values *)
-Definition transform_steps {S : Type} (c : cls) : list (step S) :=
-  pd (cls_eqb c KMulticlass) ++ [Crash k_x_usable; Crash c_quant_numeric; Check c_ordinal_known].
-
-Definition init_steps {S : Type} (w : S -> input -> S) (c : cls) : list (step S) :=
+Definition init_before {S : Type} (w : S -> input -> S) (c : cls) : list (step S) :=
   match c with
   | KBinary | KMulticlass | KContinuousCarver => [Check c_sort_by; Check c_no_overlap; Write w]
   | _ => [Write w]
   end.
 
+(* ---- Current ---------------------------------------------------------------------------- *)
+(* BaseDiscretizer._prepare_data: the raw columns (keys of features_casting) are asserted before
+   _cast_features, the casted ones after it (the same abstract fact `columns_present`); the index
+   assertion tests the lengths first *)
+Definition pd {S : Type} : list (step S) :=
+  [Check c_x_frame; Check c_cols; Check c_cols; Check c_y_series; Check c_y_nan; Check c_idx_len; Check c_idx].
+Definition pd_dev {S : Type} : list (step S) :=
+  [Check c_xdev_frame; Check c_dev_cols; Check c_dev_cols; Check c_ydev_series; Check c_ydev_nan; Check c_dev_idx].
+
+(* every fit starts with _check_is_not_fitted(); BaseDiscretizer.fit still ends the call *)
+Definition fit_current {S : Type} (w : S -> input -> S) (c : cls) : list (step S) :=
+  Guard ::
+  match c with
+  | KDiscretizer =>
+      pd ++ [Crash k_x_usable; Check c_ordinal_known; Write w; Check c_quant_numeric; Write w]
+      ++ base_fit w
+  | KQuantitative =>
+      pd ++ [Crash k_x_usable; Check c_quant_numeric; Write w; Write w] ++ base_fit w
+  | KQualitative =>
+      pd ++ [Crash k_x_usable; Write w; Check c_ordinal_known; Write w] ++ base_fit w
+  | KOrdinal =>
+      pd ++ [Crash k_x_usable; Write w; Write w] ++ base_fit w
+  | KCategorical =>
+      pd ++ [Crash k_x_usable; Write w; Write w; Write w] ++ base_fit w
+  | KContinuous =>
+      (* 65b7c26 _prepare_data, 2024976 assertion that no quantitative cell is a str *)
+      pd ++ [Crash k_x_usable; Check c_quant_numeric; Write w] ++ base_fit w
+  | KBinary =>
+      pd ++ pd_dev ++
+      [Check c_y_given; Check c_y_01; Check c_two_classes; Crash k_x_usable;
+       Check c_ordinal_known; Check c_quant_numeric; Write w; Write w] ++ base_fit w
+  | KContinuousCarver =>
+      pd ++ pd_dev ++
+      [Check c_y_given; Check c_y_no_str; Check c_many_classes; Crash k_x_usable;
+       Check c_ordinal_known; Check c_quant_numeric; Write w; Write w] ++ base_fit w
+  | KMulticlass =>
+      pd ++ pd_dev ++
+      [Check c_y_given; Check c_many_classes; Crash k_x_usable; Check c_multiclass_inner_orders;
+       Check c_ordinal_known; Check c_quant_numeric;
+       Write w; SetFitted false; Write w] ++ base_fit w
+  end.
+
+(* BaseDiscretizer.transform (no subclass overrides it): private _prepare_data, quantitative
+   lookup (numpy comparison: no assertion on str cells), qualitative _check_new_values *)
+Definition transform_current {S : Type} (c : cls) : list (step S) :=
+  pd ++ [Crash k_x_usable; Crash c_quant_numeric; Check c_ordinal_known].
+
+Definition init_current {S : Type} (w : S -> input -> S) (c : cls) : list (step S) :=
+  match c with
+  | KBinary | KMulticlass | KContinuousCarver => [Check c_sort_by; Check c_no_overlap; Write w]
+  | KDiscretizer => [Check c_no_overlap; Write w]
+  | _ => [Write w]
+  end.
+
 Definition steps {S : Type} (w : S -> input -> S) (t : tree) (c : cls) (e : entry) : list (step S) :=
-  match e with
-  | EInit => init_steps w c
-  | EFit | ERefit => match t with Current => fit_current w c | Repaired => fit_repaired w c end
-  | ETransform => transform_steps c
+  match t, e with
+  | Before, EInit => init_before w c
+  | Before, (EFit | ERefit) => fit_before w c
+  | Before, ETransform => transform_before c
+  | Current, EInit => init_current w c
+  | Current, (EFit | ERefit) => fit_current w c
+  | Current, ETransform => transform_current c
   end.
 
 (* ---- which malformation an input exhibits ------------------------------------------------ *)
@@ -293,17 +353,14 @@ Definition in_scope (c : cls) (e : entry) (m : mal) : bool :=
   | _, MOrdinalUnknown => has_ordinal_features c
   end.
 
-(* the triples for which the code (guard first) HAS an assertion; in_scope && negb guarded =
-   the places where the code has none (candidate defects, see gap_witnesses) *)
+(* the triples for which the current code HAS an assertion; in_scope && negb guarded = the
+   places where it has none (known findings, see C19_unguarded_refuted) *)
 Definition guarded (c : cls) (e : entry) (m : mal) : bool :=
   in_scope c e m &&
   match e, m, c with
   | ERefit, _, _ => true                                   (* the guard *)
-  | EInit, MFeatureOverlap, KDiscretizer => false          (* Discretizer.__init__: no check *)
   | EFit, MOrdinalUnknown, KOrdinal => false               (* OrdinalDiscretizer: no _check_new_values *)
-  | EFit, _, KContinuous => false                          (* ContinuousDiscretizer.fit: no _prepare_data *)
   | ETransform, MQuantStr, _ => false                      (* numpy comparison raises *)
-  | ETransform, MMissingCol, KMulticlass => false          (* _cast_features before the column check *)
   | _, _, _ => true
   end.
 
@@ -374,6 +431,13 @@ Definition set_ordinal_unknown (i : input) :=
           (dev_index_matches i) (dev_columns_present i) (n_classes i) (y_is_01 i) (y_has_str i) (y_all_str i)
           (feature_overlap i) (quant_has_str i) true (sort_by_ok i) true.
 
+Definition set_one_class (i : input) :=
+  mkInput (x_is_frame i) (x_is_none i) (y_given i) (y_is_series i) (y_has_nan i) (index_matches i) (index_same_len i) (columns_present i) (dev_given i) (xdev_is_frame i) (ydev_is_series i) (ydev_has_nan i) (dev_index_matches i) (dev_columns_present i) 1 false (y_has_str i) (y_all_str i) (feature_overlap i) (quant_has_str i) (ordinal_unknown_value i) (sort_by_ok i) (has_ordinal i).
+Definition set_y_all_str (i : input) :=
+  mkInput (x_is_frame i) (x_is_none i) (y_given i) (y_is_series i) (y_has_nan i) (index_matches i) (index_same_len i) (columns_present i) (dev_given i) (xdev_is_frame i) (ydev_is_series i) (ydev_has_nan i) (dev_index_matches i) (dev_columns_present i) (n_classes i) false true true (feature_overlap i) (quant_has_str i) (ordinal_unknown_value i) (sort_by_ok i) (has_ordinal i).
+Definition set_bad_sort_by (i : input) :=
+  mkInput (x_is_frame i) (x_is_none i) (y_given i) (y_is_series i) (y_has_nan i) (index_matches i) (index_same_len i) (columns_present i) (dev_given i) (xdev_is_frame i) (ydev_is_series i) (ydev_has_nan i) (dev_index_matches i) (dev_columns_present i) (n_classes i) (y_is_01 i) (y_has_str i) (y_all_str i) (feature_overlap i) (quant_has_str i) (ordinal_unknown_value i) false (has_ordinal i).
+
 Definition inject (m : mal) (i : input) : input :=
   match m with
   | MXNotFrame => set_x_not_frame i
@@ -384,16 +448,26 @@ Definition inject (m : mal) (i : input) : input :=
   | MFeatureOverlap => set_overlap i
   | MQuantStr => set_quant_str i
   | MOrdinalUnknown => set_ordinal_unknown i
-  | _ => i
+  | MNClasses => set_one_class i
+  | MYStr => set_y_all_str i
+  | MSortBy => set_bad_sort_by i
+  | MNone | MSecondFit => i
   end.
 
-(* one witness per unguarded triple: the injected input on which the (repaired) call does NOT
+(* one witness per unguarded triple: the injected input on which the (current) call does NOT
    end in AssertionError *)
 Definition gap_result (c : cls) (e : entry) (m : mal) : result :=
-  fst (run_call (csteps Repaired c e) (mkObj (fitted_at e) 0) (inject m (valid_input c false true))).
+  fst (run_call (csteps Current c e) (mkObj (fitted_at e) 0) (inject m (valid_input c false true))).
 
-(* crash points inside guarded triples (a variant of the malformation escapes the assertion) *)
+Definition gap_result_before (c : cls) (e : entry) (m : mal) : result * obj nat :=
+  run_call (csteps Before c e) (mkObj (fitted_at e) 0) (inject m (valid_input c false false)).
+
+(* crash points inside guarded triples (a variant of the malformation escapes the assertion):
+   X is None — _prepare_data skips everything `if X is not None`, the first use of X raises *)
 Definition crash_gap_witnesses : list (cls * entry * mal * input) :=
+  map (fun c => (c, EFit, MXNotFrame, set_x_none (valid_input c false true))) all_cls.
+(* before the fix commits: also y shorter than X, a continuous target mixing str and numbers *)
+Definition crash_gap_witnesses_before : list (cls * entry * mal * input) :=
   flat_map (fun c =>
      if cls_eqb c KContinuous then [] else
        [(c, EFit, MXNotFrame, set_x_none (valid_input c false true));
